@@ -80,9 +80,10 @@ def run(rep):
 
         def addv(rule, name, lhs, rhs, where):
             pairs.append(Pair(par, lhs, rhs, rule, "%s on %s" % (name, k), "%s:%s:%s" % (rule, name, k), W + where))
-        if k not in ("k_bits", "k_bits7", "k_bits1", "k_bitstep"):
-            addv("iter-law", "(xit+n)-xit == n", "(iptr)((v.x_at(x, y) + n) - v.x_at(x, y))", "(iptr)n", "step_iterator.hpp")
-            addv("iter-law", "(yit+n)-yit == n", "(iptr)((v.y_at(x, y) + n) - v.y_at(x, y))", "(iptr)n", "step_iterator.hpp")
+        # (for the bit-aligned kinds the distance is floor arithmetic on bit offsets: 8*(q2-q1) + r2 - r1 with q, r the
+        # quotient and remainder of the advanced offset by 8, which D-poly folds back with its quotient atoms)
+        addv("iter-law", "(xit+n)-xit == n", "(iptr)((v.x_at(x, y) + n) - v.x_at(x, y))", "(iptr)n", "step_iterator.hpp")
+        addv("iter-law", "(yit+n)-yit == n", "(iptr)((v.y_at(x, y) + n) - v.y_at(x, y))", "(iptr)n", "step_iterator.hpp")
         # mirrored ordering operators
         for it in ("x_at", "y_at"):
             a, b = "v.%s(x, y)" % it, "v.%s(dx, dy)" % it
@@ -108,6 +109,19 @@ def run(rep):
                                   ("it <= it", "%s <= %s" % (mk, mk), 1), ("!(it < it)", "%s < %s" % (mk, mk), 0)):
                 pairs.append(Pair(par, "(iptr)(%s)" % e, "(iptr)%d" % want, "order-dir", "%s (%s, %s, n>0)" % (name, nm, sign),
                                   "order-dir:%s:%s:%s" % (name, nm, sign), W + "step_iterator.hpp", facts=facts))
+    # the same for a step iterator over a step iterator (column iterators of x-flipped views, x iterators of transposed
+    # flipped views): the inner direction must not leak into the outer ordering
+    for osign, ofs in (("outer step>0", (1, BIG)), ("outer step<0", (-BIG, -1))):
+        for isign, ifs in (("inner step>0", (1, BIG)), ("inner step<0", (-BIG, -1))):
+            par = "rgb8_pixel_t* p, std::ptrdiff_t si, std::ptrdiff_t s, std::ptrdiff_t n"
+            mk = "memory_based_step_iterator<memory_based_step_iterator<rgb8_pixel_t*>>(memory_based_step_iterator<rgb8_pixel_t*>(p, si), s)"
+            facts = {"a1": ifs, "a2": ofs, "a3": (1, BIG)}
+            for name, e, want in (("it < it+n", "%s < %s + n" % (mk, mk), 1), ("it+n > it", "%s + n > %s" % (mk, mk), 1),
+                                  ("it <= it+n", "%s <= %s + n" % (mk, mk), 1), ("it+n >= it", "%s + n >= %s" % (mk, mk), 1),
+                                  ("!(it+n < it)", "%s + n < %s" % (mk, mk), 0), ("!(it > it+n)", "%s > %s + n" % (mk, mk), 0),
+                                  ("it <= it", "%s <= %s" % (mk, mk), 1), ("!(it < it)", "%s < %s" % (mk, mk), 0)):
+                pairs.append(Pair(par, "(iptr)(%s)" % e, "(iptr)%d" % want, "order-dir", "%s (nested, %s, %s, n>0)" % (name, osign, isign),
+                                  "order-dir:%s:nested:%s:%s" % (name, osign, isign), W + "step_iterator.hpp", facts=facts))
     rep.rule("order-dir: it < it+n (n>0) and its variants hold for positive and for negative steps (range facts on step and n)")
     rep.trusted += ["clang 14 front end and LLVM inliner/SROA/mem2reg", "polynomial normaliser harness/ir/poly.py"]
     rep.rule("path/locator: every navigation path denotes the same cell polynomial as view(x,y) (+offset)")
@@ -121,7 +135,7 @@ def run(rep):
     rep.floor("obligations:iter-law", nk * 9)
     rep.floor("obligations:order", nk * 10)
     row_carry(rep)
-    rep.floor("obligations:order-dir", 32)
+    rep.floor("obligations:order-dir", 64)
     from .p06 import accept_inconclusive
     accept_inconclusive(rep, "c03_inconclusive.json")
 
